@@ -27,6 +27,37 @@ Definition eval (c : cur) : val + pkind :=
 
 Definition path_len (p : list string) : nat := List.length p.
 
+(* the field dispatch of a struct node; [rec] compiles a child at depth+1 *)
+Definition skip_child (ch : node) : bool :=
+  (match n_typ ch with typeBasic => negb (String.eqb (n_typu ch) "string") | _ => false end) || negb (n_hasc ch).
+
+Definition walk_gen (rec : node -> cur -> Z -> out Z) (c : cur) (oseg : option string)
+  : list node -> nat -> Z -> out Z :=
+  fix walk (chs : list node) (idx : nat) (res : Z) {struct chs} : out Z :=
+    match chs with
+    | [] => Fall res
+    | ch :: rest =>
+      if skip_child ch then walk rest (S idx) res
+      else
+        match oseg with
+        | None => Panic PIndex                          (* path[depth] out of range *)
+        | Some seg =>
+          if String.eqb seg (n_name ch) then
+            let cc := cur_field c ch idx in
+            let chPtr := n_ptr ch && match n_typ ch with typeBasic => false | _ => true end in
+            let o :=
+              if chPtr then
+                match cc with
+                | CPoison => Panic PNilDeref
+                | CNil => Fall res
+                | CVal _ => rec ch cc res
+                end
+              else rec ch cc res in
+            bind o (walk rest (S idx))
+          else walk rest (S idx) res
+        end
+    end.
+
 (* [lc fn n rootptr c depth path res]:
      n        the node being compiled, c the cursor of the expression `v`,
      rootptr  node.ptr as the emitter sees it (the root map flips it to true),
@@ -46,31 +77,7 @@ Fixpoint lc (fn : lcfn) (n : node) (c : cur) (depth : nat) (path : list string) 
       match ty with
       | typeStruct =>
         if negb (Nat.eqb depth 0) && Nat.ltb (path_len path) (S depth) then Ret res None else
-        (fix walk (chs : list node) (idx : nat) (res : Z) {struct chs} : out Z :=
-           match chs with
-           | [] => Fall res
-           | ch :: rest =>
-             if (match n_typ ch with typeBasic => negb (String.eqb (n_typu ch) "string") | _ => false end) || negb (n_hasc ch)
-             then walk rest (S idx) res
-             else
-               match nth_error path depth with
-               | None => Panic PIndex                          (* path[depth] is not guarded *)
-               | Some seg =>
-                 if String.eqb seg (n_name ch) then
-                   let cc := cur_field c ch idx in
-                   let chPtr := n_ptr ch && match n_typ ch with typeBasic => false | _ => true end in
-                   let o :=
-                     if chPtr then
-                       match cc with
-                       | CPoison => Panic PNilDeref
-                       | CNil => Fall res
-                       | CVal _ => lc fn ch cc (S depth) path res
-                       end
-                     else lc fn ch cc (S depth) path res in
-                   bind o (walk rest (S idx))
-                 else walk rest (S idx) res
-               end
-           end) chld 0 res
+        walk_gen (fun ch cc r => lc fn ch cc (S depth) path r) c (nth_error path depth) chld 0 res
       | typeMap =>
         match mk, mv with
         | Some kn, Some vn =>
